@@ -141,13 +141,27 @@ class KindInterp(DictInterp):
                 if len(c.args) == 3:
                     return self.ev(c.args[2])
                 raise Raised("AttributeError %s.%s" % (v.name, a))
-        if isinstance(c.func, ast.Attribute) and not c.keywords and not any(isinstance(a, ast.Starred) for a in c.args):
+        if isinstance(c.func, ast.Attribute) and not c.keywords:
             try:
                 recv = self.ev(c.func.value)
             except Unsupported:
                 recv = None
             if isinstance(recv, AObj) and c.func.attr in recv.methods:
-                return recv.methods[c.func.attr](*[self.ev(a) for a in c.args])
+                argv = []
+                for a in c.args:
+                    if isinstance(a, ast.Starred):
+                        v_ = self.ev(a.value)
+                        if not isinstance(v_, (list, tuple)):
+                            raise Unsupported("* of a non-sequence")
+                        argv.extend(v_)
+                    else:
+                        argv.append(self.ev(a))
+                return recv.methods[c.func.attr](*argv)
+        if isinstance(c.func, ast.Attribute) and not c.keywords and not any(isinstance(a, ast.Starred) for a in c.args):
+            try:
+                recv = self.ev(c.func.value)
+            except Unsupported:
+                recv = None
             if c.func.attr in getattr(recv, "_xv_methods", ()):
                 return getattr(recv, c.func.attr)(*[self.ev(a) for a in c.args])
         if fn == "zip" and len(c.args) == 1 and isinstance(c.args[0], ast.Starred) and not c.keywords:
